@@ -16,7 +16,7 @@ from driver import run_batch
 from wire import to_wire, canon, exc_class
 from props.common import scale, depth_of, schema_tags, load_corpus
 
-THEOREMS = ["c08_match_eq_spec", "c08_pick_eq_spec", "c08_promotions", "c08_primitives", "c08_enum_default", "c08_field_matching",
+THEOREMS = ["c08_resolve_eq_spec", "c08_match_eq_spec", "c08_pick_eq_spec", "c08_promotions", "c08_primitives", "c08_enum_default", "c08_field_matching",
             "Tables.resolve_tables", "Tables.resolve_dispatch"]
 TARGETS = ["Properties.TablesResolve", "Properties.C08"]
 
@@ -471,6 +471,8 @@ def run(tier, seed):
     spec = run_batch([dict(q, op="spec.resolve") for q in reqs])
     model = run_batch([dict(q, op="resolve") for q in reqs])
     plain = run_batch([dict(q, op="resolve", reader=None) for q in reqs])
+    # which runs lie inside the domain of the theorem `c08_resolve_eq_spec` (its hypotheses evaluated by the driver)
+    hyp = run_batch([dict(q, op="c08.hyp") for q in reqs])
     for k, (ci, v, b) in enumerate(meta):
         w, rs, data, labels = cases[ci]
         ir = impl_resolve(w, rs, b)
@@ -482,6 +484,7 @@ def run(tier, seed):
         if "perr" in sp or "rperr" in sp or "perr" in mo or "rperr" in mo:
             run.tag("model-parse-skip")
             continue
+        run.tag("theorem-domain:" + ("inside" if hyp[k].get("fails") == "" else "outside:" + str(hyp[k].get("fails"))))
         why = None
         if labels and labels[0].startswith("identity"):
             pl = plain[k]
